@@ -174,8 +174,6 @@ func embeddedField(ptr bool, name, tag string) field {
 	return field{ID: "embed " + id, Toks: b.toks}
 }
 
-
-
 var innerStruct = dStruct("{X int}", []field{namedField([]string{"X"}, dBase("int"), "")})
 
 // fieldAlphabet: the bounded inner shapes of a struct field (statement of the property: primitive,
@@ -692,9 +690,9 @@ func groupExprAlphabet(name string) []texpr {
 		typeExpr(name, true, dSlice(dBase("int"))),
 		typeExpr(name, false, dMap(dBase("string"), dPtr(dBase("Bar")))),
 		typeExpr(name, false, structWithFields(nil)),
-		typeExpr(name, false, structWithFields([]field{fa[0]})),                         // Foo string
-		typeExpr(name, false, structWithFields([]field{fa[len(fa)/2+1]})),               // Foo []int `tag`
-		typeExpr(name, false, structWithFields([]field{fa[len(fa)/2-2]})),               // embedded Bar
+		typeExpr(name, false, structWithFields([]field{fa[0]})),                             // Foo string
+		typeExpr(name, false, structWithFields([]field{fa[len(fa)/2+1]})),                   // Foo []int `tag`
+		typeExpr(name, false, structWithFields([]field{fa[len(fa)/2-2]})),                   // embedded Bar
 		typeExpr(name, false, structWithFields([]field{fa[7], renameField(fa[len(fa)/2])})), // nested struct; Baz string `tag`
 	}
 }
@@ -740,4 +738,40 @@ func edgeStmts() []stmt {
 		sImportGroup(nil),
 		sTypeGroup(nil),
 	}
+}
+
+// valueStmts: literal values that contain a tab, two blanks or a per cent sign, in every position
+// that takes a string (family "values"). Shape = "<special>@<position>".
+func valueStmts() []stmt {
+	var out []stmt
+	specials := []struct{ name, text string }{{"tab", "\t"}, {"two-blanks", "  "}, {"percent", "%d"}}
+	vals := srvValues()
+	for _, sp := range specials {
+		q := `"a` + sp.text + `b"`
+		named := func(s stmt, pos string) stmt {
+			s.Shape = sp.name + "@" + pos
+			return s
+		}
+		out = append(out, named(sType(typeExpr("T", false, structWithFields([]field{namedField([]string{"Foo"}, dBase("string"), "`json:\"a"+sp.text+"b\"`")}))), "field-tag"))
+		out = append(out, named(sInfo([]kv{{K: "title", V: q, ID: "str"}}), "info-string"))
+		out = append(out, named(sInfo([]kv{{K: "desc", V: "`a" + sp.text + "b`", ID: "raw"}}), "info-raw-string"))
+		out = append(out, named(sImport(`"a`+sp.text+`b.api"`), "import"))
+		out = append(out, named(sImportGroup([]string{`"a` + sp.text + `b.api"`}), "import-group"))
+		sv := srvVal{ID: "string", Toks: []tok{{T: q, Role: "atserver.value"}}}
+		as := mkAtServer([]string{"k"}, []srvVal{sv})
+		out = append(out, named(sService(&as, "foo", nil), "atserver-string"))
+		_ = vals
+		// @doc literal and @doc group value
+		b := &builder{}
+		b.line("@doc", "atdoc.kw").add(q, "atdoc.value")
+		b.line("@handler", "athandler.kw").add("h1", "athandler.name").line("get", "route.method")
+		pathToks(b, 1)
+		out = append(out, named(sService(nil, "foo", []route{{ID: "doc-lit", Toks: b.toks}}), "atdoc-literal"))
+		b = &builder{}
+		b.line("@doc", "atdocg.kw").add("(", "atdocg.lparen").line("summary", "atdocg.key").glue(":", "atdocg.colon").add(q, "atdocg.value").line(")", "atdocg.rparen")
+		b.line("@handler", "athandler.kw").add("h1", "athandler.name").line("get", "route.method")
+		pathToks(b, 1)
+		out = append(out, named(sService(nil, "foo", []route{{ID: "doc-group", Toks: b.toks}}), "atdoc-group-value"))
+	}
+	return out
 }
